@@ -192,7 +192,7 @@ impl<'t, F: Kind + BooleanFunction> Session<'t, F> {
         self.slots.push(None);
         let h = self.slots.len() - 1;
         self.ext.insert(h, e);
-        self.out.emit(json!({"ev":"clone","a":a,"h":h}));
+        self.out.emit(json!({"ev":"clone","a":a,"h":h,"ext":true}));
         (h, f)
     }
     /// the external holder is about to drop its handle
